@@ -6,6 +6,7 @@ import (
 	"bytes"
 	"context"
 	"crypto/tls"
+	"encoding/json"
 	"errors"
 	"fmt"
 	"io"
@@ -92,21 +93,22 @@ func AsInt(v any) int {
 
 // Exec is one execution: one server, one log, one or more connections.
 type Exec struct {
-	Cfg     M
-	Log     *mem.Log
-	Lis     *mem.Listener
-	Srv     *wire.Server
-	Conns   []*mem.Conn
-	Limit   int // configured message limit (bytes); 0 = library default
-	scripts map[string]M
-	nextID  int
-	served  chan error
-	kept    []retained
-	Sched   *Sched // set when goroutines are under schedule control (C16 / C15)
-	Global  wire.Parameters
-	ctxMu   sync.Mutex
-	lastCtx map[int]context.Context // per connection: context of the command whose callback ran last
-	prevCtx map[int]context.Context // per connection: context of the command before that one
+	colCache map[string]wire.Columns
+	Cfg      M
+	Log      *mem.Log
+	Lis      *mem.Listener
+	Srv      *wire.Server
+	Conns    []*mem.Conn
+	Limit    int // configured message limit (bytes); 0 = library default
+	scripts  map[string]M
+	nextID   int
+	served   chan error
+	kept     []retained
+	Sched    *Sched // set when goroutines are under schedule control (C16 / C15)
+	Global   wire.Parameters
+	ctxMu    sync.Mutex
+	lastCtx  map[int]context.Context // per connection: context of the command whose callback ran last
+	prevCtx  map[int]context.Context // per connection: context of the command before that one
 }
 
 type ctxKeyT int
@@ -274,6 +276,9 @@ type retained struct {
 	str  string
 	live []byte
 	copy []byte
+	// a parameter handed to a statement function, kept as handed over (the holder reads it again later)
+	param  *wire.Parameter
+	isnull bool
 }
 
 func (x *Exec) retainStr(s string) {
@@ -296,7 +301,12 @@ func (x *Exec) Intact() bool {
 	x.ctxMu.Lock()
 	defer x.ctxMu.Unlock()
 	for _, r := range x.kept {
-		if r.live != nil {
+		if r.param != nil {
+			v := r.param.Value()
+			if (v == nil) != r.isnull || !bytes.Equal(v, r.copy) {
+				return false
+			}
+		} else if r.live != nil {
 			if !bytes.Equal(r.live, r.copy) {
 				return false
 			}
@@ -478,10 +488,25 @@ func (x *Exec) parse(ctx context.Context, query string) (wire.PreparedStatements
 	for si, sv := range L(q, "stmts") {
 		st := AsM(sv)
 		idx := si + 1
-		var cols wire.Columns
-		for _, cv := range L(st, "cols") {
-			c := AsM(cv)
-			cols = append(cols, wire.Column{Name: S(c, "name"), Oid: oid.Oid(I(c, "oid"))})
+		// the column definitions of a statement are built once and handed to the library every time the same
+		// query text is parsed, on whichever connection (the way applications keep their table definitions):
+		// the library only reads them
+		colsig, _ := json.Marshal(st["cols"])
+		ckey := fmt.Sprintf("%s/%d/%s", key, si, colsig)
+		x.ctxMu.Lock()
+		cols, cached := x.colCache[ckey]
+		x.ctxMu.Unlock()
+		if !cached {
+			for _, cv := range L(st, "cols") {
+				c := AsM(cv)
+				cols = append(cols, wire.Column{Name: S(c, "name"), Oid: oid.Oid(I(c, "oid"))})
+			}
+			x.ctxMu.Lock()
+			if x.colCache == nil {
+				x.colCache = map[string]wire.Columns{}
+			}
+			x.colCache[ckey] = cols
+			x.ctxMu.Unlock()
 		}
 		opts := []wire.PreparedOptionFn{}
 		if cols != nil {
@@ -549,6 +574,9 @@ func (x *Exec) runStmt(ctx context.Context, w wire.DataWriter, params []wire.Par
 	for i, p := range params {
 		rec := M{"fmt": int(p.Format())}
 		x.retainBytes(p.Value())
+		x.ctxMu.Lock()
+		x.kept = append(x.kept, retained{param: &params[i], isnull: p.Value() == nil, copy: append([]byte{}, p.Value()...)})
+		x.ctxMu.Unlock()
 		if p.Value() == nil {
 			rec["null"] = true
 		} else {
